@@ -10,7 +10,7 @@ from .. import gens, model, printing
 from ..core import Prop, Violation
 from ..lib import RC_STRICT, RC_NAMES, LG_BOTH, LG_DEFAULT
 
-INT_RE = re.compile(rb"^-?(0|[1-9][0-9]*)$")
+INT_RE = re.compile(rb"\A-?(0|[1-9][0-9]*)\Z")
 
 
 class Reject(Exception):
